@@ -1,5 +1,5 @@
-\* exhaustive, generic Composite mode: 3 originals + 2 pool ids, 2 grid cells, depth 4
-CONSTANTS N = 5  NOrig = 3  NLoc = 2  MaxLevel = 3  Typed = FALSE  MaxSet = 2  NBlk = 0  BlkGrid = FALSE
+\* emission of every explored edge and state, generic Composite mode: 3 originals + 2 pool ids, 2 grid cells, depth 3
+CONSTANTS N = 5  NOrig = 3  NLoc = 2  MaxLevel = 3  Typed = FALSE  MaxSet = 2  NBlk = 0  BlkGrid = FALSE  NGrp = 0  Rx = FALSE  NAsm = 0  Deviant = TRUE  WithOwned = TRUE
 ACTION_CONSTRAINT Emit
 INVARIANT EmitState
 INIT Init
@@ -7,7 +7,8 @@ NEXT Next
 CONSTRAINT Bound
 VIEW View
 INVARIANT TypeOK
-INVARIANT OneParentListedOnce
+INVARIANT BrokenIsDead
+INVARIANT OneParentListedOnceD
 INVARIANT NoDuplicates
 INVARIANT Acyclic
 INVARIANT DetachedIsDetached
